@@ -1,11 +1,11 @@
 //! Socket driver: starts the REAL MemcacheTcpServer (accept loop, Client::handle, connection, codec,
 //! handler, store) on a loopback port and plays a script against it over TCP.
-//! stdin directives:  limit <u32> | timeout <secs> | send <hex> | sleep <ms> | recv <idle-ms> | shutdown_wr | close | conn
+//! stdin directives:  limit <u32> | timeout <secs> | send <hex> | sleep <ms> | recv <idle-ms> | shutdown_wr | close | conn | tick <secs>
 //! stdout events:     recv <hex> | eof | error <text>
 use memcrs::memcache::builder::{MemcacheStoreBuilder, MemcacheStoreConfig};
 use memcrs::memcache::eviction_policy::EvictionPolicy;
 use memcrs::memcache_server::memc_tcp::{MemcacheServerConfig, MemcacheTcpServer};
-use memcrs::server::timer::SystemTimer;
+use memcrs::server::timer::{SetableTimer, SystemTimer};
 use std::io::{BufRead, Read, Write};
 use std::net::TcpStream;
 use std::sync::Arc;
@@ -24,6 +24,7 @@ pub fn main(_args: &[String]) {
     let port: u16 = 20000 + (std::process::id() % 20000) as u16;
     let addr = format!("127.0.0.1:{}", port);
     let timer = Arc::new(SystemTimer::new());
+    let clock = timer.clone();      // the server clock is advanced by `tick` only (nothing runs SystemTimer::run here)
     let store = MemcacheStoreBuilder::from_config(MemcacheStoreConfig::new(u64::MAX, EvictionPolicy::None), timer);
     let cfg = MemcacheServerConfig::new(timeout, 8, limit, 16);
     let addr2 = addr.clone();
@@ -66,6 +67,7 @@ pub fn main(_args: &[String]) {
                 println!("recv {}", crate::hex(&all));
                 if eof { println!("eof"); }
             }
+            "tick" => { for _ in 0..w[1].parse::<u64>().unwrap() { clock.add_second(); } }
             "shutdown_wr" => { let _ = sock.shutdown(std::net::Shutdown::Write); }
             "conn" => {
                 sock = TcpStream::connect(&addr).unwrap();
